@@ -466,15 +466,12 @@ class Building(object):
             if (self.dehumDemand + self.sensCoolDemand) > (self.coolcap * self.nFloor):
                 # if cooling demand greater then hvac cooling capacity
                 self.Qhvac = self.coolcap * self.nFloor
-                VolCool = (
-                    VolCool / (self.dehumDemand + self.sensCoolDemand) *
-                    (self.coolcap * self.nFloor))
+                totDemand = self.dehumDemand + self.sensCoolDemand
+                VolCool = VolCool / totDemand * (self.coolcap * self.nFloor)
                 self.sensCoolDemand = (
-                    self.sensCoolDemand * (self.coolcap * self.nFloor) /
-                    (self.dehumDemand + self.sensCoolDemand))
+                    self.sensCoolDemand * (self.coolcap * self.nFloor) / totDemand)
                 self.dehumDemand = (
-                    self.dehumDemand * (self.coolcap * self.nFloor) /
-                    (self.dehumDemand + self.sensCoolDemand))
+                    self.dehumDemand * (self.coolcap * self.nFloor) / totDemand)
             else:
                 self.Qhvac = self.dehumDemand + self.sensCoolDemand
 
